@@ -115,6 +115,7 @@ extern std::function<void(int fd, bool out, const char *p, size_t n)> tap_stream
 extern std::function<void(int fd, bool out, const char *p, size_t n, const sockaddr *peer)> tap_dgram;
 // ledger of every read/write syscall on a simulated stream (C22)
 extern std::function<void(int fd, bool out, size_t n)> io_ledger;
+extern std::function<void(int fd, bool out)> io_retry;	// an injected EINTR / EAGAIN: the call was made, nothing moved
 // every accept4() on a simulated listener: new_fd >= 0 with the client's port, or new_fd < 0 and the errno returned
 extern std::function<void(int listen_fd, int new_fd, int peer_port, int err)> accept_hook;
 int ep_local_port(Endpoint *);
